@@ -2,6 +2,7 @@
 import numpy as np
 from hypothesis import strategies as st
 
+from pbt import strategies as S
 from pbt import ir, lossgen, refsolve, jets, refdist
 from pbt.harness import PropertyViolation, Inconclusive
 from pbt.util import call
@@ -41,6 +42,13 @@ def strategy(tier):
             c["target_state"] = None
         if c["entry"] == "jac":
             c["weights"] = None
+        # 0-2 further evaluations on the same loss object at other points (parameters scaled; for IV entries other initial values)
+        fus = []
+        for _ in range(draw(st.sampled_from([0, 0, 1, 2]))):
+            fus.append({"entry": draw(st.sampled_from(["sensitivity", "gradient", "sensitivityIV", "sensitivityIV", "cost"])),
+                        "theta_factors": [draw(st.sampled_from([0.7, 0.9, 1.0, 1.15, 1.4])) for _ in range(len(c["model"]["params"]))],
+                        "x0_factors": [draw(st.sampled_from([0.8, 0.9, 1.1, 1.3])) for _ in range(len(ir.state_names(c["model"])))]})
+        c["followups"] = fus
         return c
     return case()
 
@@ -75,30 +83,22 @@ def reference_gradient(case, y, free, x0, with_iv):
     return np.array(g), yhat, np.array(gs)
 
 
-def oracle(case, rec):
+def _ambiguous(case, m, names, free):
+    ts = case["target_state"] or names
+    n_in = len(free) + len(ts)
+    n_p = len(m["params"])
+    if case["target_param"] is not None and case["target_state"] is None and n_in == n_p:
+        return True
+    if case["target_param"] is None and case["target_state"] is not None and len(ts) + n_p == len(ts):
+        return True
+    return False
+
+
+def _one_evaluation(case, rec, obj, y, entry, free, x0, method, key):
+    """One call on the (possibly already used) loss object, compared with the reference gradient at (free, x0)."""
     m, su = case["model"], case["setup"]
     names = ir.state_names(m)
-    n_s, n_p = len(names), len(m["params"])
-    y, _ = lossgen.make_data(case)
-    key = "C07/%s/%s" % (case["entry"], case["loss"])
-    iv = case["entry"] == "sensitivityIV"
-    free = lossgen.free_theta(case)
-    rec.label("loss:" + case["loss"], "entry:" + case["entry"], "method:%s" % case["method"],
-              "target_param:" + ("none" if case["target_param"] is None else "given"),
-              "target_state:" + ("none" if case["target_state"] is None else "given"))
-    if iv:
-        ts = case["target_state"] or names
-        n_in = len(free) + len(ts)
-        if case["target_param"] is not None and case["target_state"] is None and n_in == n_p:
-            raise Inconclusive("ambiguous input length (documented rejection)")
-        if case["target_param"] is None and case["target_state"] is not None and len(ts) + n_p == len(ts):
-            raise Inconclusive("ambiguous input length (documented rejection)")
-    model, obj = call(key + "/construct", case, lossgen.build, case, y)
-    x0 = list(su["x0"])
-    if iv:
-        x0 = list(su["x0"])
-        for s in (case["target_state"] or names):
-            x0[names.index(s)] = case["x0_eval"][names.index(s)]
+    iv = entry == "sensitivityIV"
     ref, yhat, gscale = reference_gradient(case, y, free, x0, iv)
     # cross-check the reference against a central difference of the reference cost (guards the oracle itself)
     k0 = 0
@@ -113,7 +113,7 @@ def oracle(case, rec):
     fd = (cp - cm) / (2 * h)
     if abs(fd - ref[k0]) > 1e-3 * (1 + abs(fd) + np.abs(ref).max()):
         raise Inconclusive("reference gradient disagrees with finite difference of reference cost")
-    if case["entry"] == "jac":
+    if entry == "jac":
         # jac(theta): the sensitivities of the observed states w.r.t. the free parameters at the observation times, the raw
         # material of gradient/jtj.  Checked as a set of columns (every reference column d x_s(t_.)/d theta_k appears exactly
         # once), so that the column layout, which only the library's own consumers rely on, is not part of the verdict.
@@ -121,7 +121,7 @@ def oracle(case, rec):
         Sp = out[1]
         tp_ = case["target_param"] or m["params"]
         refcols = [(s_, q, Sp[:, cols[j], m["params"].index(q)]) for q in tp_ for j, s_ in enumerate(case["obs"])]
-        J = np.asarray(call(key, case, obj.jac, np.array(free), False, False, case["method"]), float)
+        J = np.asarray(call(key, case, obj.jac, np.array(free), False, False, method), float)
         if J.ndim != 2 or J.shape != (len(times), len(refcols)):
             raise PropertyViolation(key + "/shape", "jac has shape %s, expected (%d observation times, %d observed states x %d free "
                                     "parameters)" % (J.shape, len(times), len(case["obs"]), len(tp_)), case)
@@ -137,22 +137,27 @@ def oracle(case, rec):
                      <= 1e-5 * (np.abs(refcols[k * len(case["obs"]) + j][2]).max() + 1e-9) + 1e-7 * (1 + np.abs(yhat).max())
                      for k in range(len(tp_)) for j in range(len(case["obs"])))
         rec.label("jac-layout:" + ("state-fastest-within-parameter" if layout else "other"))
-        if len(refcols) >= 2:
-            rec.mark_nontrivial(case, dict(lossgen.describe(case), entry="jac", method=case["method"]))
-        return
+        return None
     if iv:
         arg = np.array(list(free) + [x0[names.index(s)] for s in (case["target_state"] or names)])
-        got = call(key, case, obj.sensitivityIV, arg, False, case["method"])
-    elif case["entry"] == "gradient":
+        got = call(key, case, obj.sensitivityIV, arg, False, method)
+    elif entry == "gradient":
         got = call(key, case, obj.gradient, np.array(free))
-    elif case["entry"] == "sensitivity-full":
-        out = call(key, case, obj.sensitivity, np.array(free), True, case["method"])
+    elif entry == "sensitivity-full":
+        out = call(key, case, obj.sensitivity, np.array(free), True, method)
         try:
             got, info = out
         except Exception:
             raise PropertyViolation(key + "/return", "sensitivity(full_output=True) did not return (grad, info)", case)
+    elif entry == "cost":
+        # a cost evaluation in between (what an optimiser does): checked against the reference cost
+        got = float(call(key, case, obj.cost, np.array(free)))
+        refc = lossgen.ref_cost(case, y, yhat)
+        if not np.isfinite(got) or abs(got - refc) > 1e-5 * (1 + abs(refc)):
+            raise PropertyViolation(key + "/value", "cost(theta) = %.12g in a call sequence, reference %.12g" % (got, refc), case)
+        return None
     else:
-        got = call(key, case, obj.sensitivity, np.array(free), False, case["method"])
+        got = call(key, case, obj.sensitivity, np.array(free), False, method)
     got = np.asarray(got, float)
     if got.shape != ref.shape:
         raise PropertyViolation(key + "/shape", "gradient has shape %s for %d free variables" % (got.shape, len(ref)), case)
@@ -164,12 +169,54 @@ def oracle(case, rec):
             perm_hint = " (a permutation of the reference)"
         raise PropertyViolation(key + "/value", "gradient %s, derivative of cost w.r.t. the free variables in the supplied order %s%s" % (
             np.array2string(got, precision=8), np.array2string(ref, precision=8), perm_hint), case)
+    return ref
+
+
+def oracle(case, rec):
+    m, su = case["model"], case["setup"]
+    names = ir.state_names(m)
+    n_s, n_p = len(names), len(m["params"])
+    y, _ = lossgen.make_data(case)
+    key = "C07/%s/%s" % (case["entry"], case["loss"])
+    iv = case["entry"] == "sensitivityIV"
+    free = lossgen.free_theta(case)
+    rec.label("loss:" + case["loss"], "entry:" + case["entry"], "method:%s" % case["method"],
+              "target_param:" + ("none" if case["target_param"] is None else "given"),
+              "target_state:" + ("none" if case["target_state"] is None else "given"))
+    if iv and _ambiguous(case, m, names, free):
+        raise Inconclusive("ambiguous input length (documented rejection)")
+    model, obj = call(key + "/construct", case, lossgen.build, case, y)
+    x0 = list(su["x0"])
+    if iv:
+        for s in (case["target_state"] or names):
+            x0[names.index(s)] = case["x0_eval"][names.index(s)]
+    ref = _one_evaluation(case, rec, obj, y, case["entry"], free, x0, case["method"], key)
+    # ---- further calls on the SAME loss object (an optimiser's path): the object remembers the parameters and, after an
+    # initial-value call, the initial state it was last given; every later result must still be the derivative at its own point
+    for j, fu in enumerate(case.get("followups") or []):
+        entry2 = fu["entry"]
+        if entry2 == "sensitivityIV" and (case["entry"] != "sensitivityIV" or _ambiguous(case, m, names, free)):
+            entry2 = "sensitivity"
+        free2 = [S.sig(v * f, 5) for v, f in zip(free, fu["theta_factors"])]
+        x02 = list(x0)                         # non-IV calls use whatever initial state the object currently holds
+        if entry2 == "sensitivityIV":
+            for s, f in zip((case["target_state"] or names), fu["x0_factors"]):
+                x02[names.index(s)] = S.sig(x0[names.index(s)] * f, 5)
+        key2 = "C07/sequence/%s-after-%s/%s" % (entry2, case["entry"], case["loss"])
+        rec.label("sequence:%s-after-%s" % (entry2, case["entry"]))
+        _one_evaluation(case, rec, obj, y, entry2, free2, x02, case["method"], key2)
+        x0 = x02
+    if ref is None:
+        if case["entry"] == "jac" and len(free) * len(case["obs"]) >= 2:
+            rec.mark_nontrivial(case, dict(lossgen.describe(case), entry="jac", method=case["method"]))
+        return
     decl = [names.index(s) for s in case["obs"]]
     tp = case["target_param"]
     special = (decl != sorted(decl)) or (tp is not None and (len(tp) < n_p or [m["params"].index(q) for q in tp] != sorted(m["params"].index(q) for q in tp))) \
-        or case["target_state"] is not None or (len(case["obs"]) == 1 and case["loss"] != "Square")
+        or case["target_state"] is not None or (len(case["obs"]) == 1 and case["loss"] != "Square") or bool(case.get("followups"))
     if len(ref) >= 2 and (np.abs(ref).max() - np.abs(ref).min()) > 0.01 * np.abs(ref).max() and special:
-        rec.mark_nontrivial(case, dict(lossgen.describe(case), entry=case["entry"], method=case["method"]))
+        rec.mark_nontrivial(case, dict(lossgen.describe(case), entry=case["entry"], method=case["method"],
+                                       followups=case.get("followups")))
 
 
 SELFTESTS = [jets.selftest, refsolve.selftest, refdist.selftest]
